@@ -30,7 +30,9 @@ def akai_payload():
                 # an L/R pair of three sectors each: the left half contiguous, the right half fragmented (what is true for
                 # one file's sector list at some index says nothing about another file's)
                 {"name": "WIDE-L", "n": 12000, "chain": [17, 18, 19], "seq": 9},
-                {"name": "WIDE-R", "n": 12000, "chain": [20, 22, 21], "seq": 10}]},
+                {"name": "WIDE-R", "n": 12000, "chain": [20, 22, 21], "seq": 10},
+                # five sectors: one read can hold two and more WHOLE sectors between its first and last piece
+                {"name": "LONG5", "n": 20000, "chain": [27, 25, 28, 26, 29], "seq": 11}]},
             {"name": "VOL2", "dir": [12], "files": [{"name": "OTHER", "n": 300, "chain": [13], "seq": 5}]}]},
         {"vols": [
             {"name": "VOLB", "dir": [4], "files": [
@@ -216,6 +218,10 @@ def configs(quick):
         out.append({"name": kind + ":wide-stereo+stream", "kind": kind, "parts": [
             {"path": ["A:", "VOL1", "WIDE-L"], "path2": ["A:", "VOL1", "WIDE-R"], "ops": [["next"]] * 6, "stepwise": True},
             P(A1, ("read", 4096), ("read", S + 1))]})
+        L5 = ("A:", "VOL1", "LONG5")
+        out.append({"name": kind + ":big-blocks", "kind": kind, "parts": [
+            P(L5, ("seek", 100), ("read", 30000), ("read", 10000)), P(A1, ("read", 4096), ("read", S + 1)),
+            P(WR, ("read", 20000), ("read", 6146))]})
         if not quick:
             for sizes in itertools.product([1, 2, 4096, S - 1, S + 1], repeat=2):
                 out.append({"name": f"{kind}:3x3:{sizes}", "kind": kind, "parts": [
@@ -224,6 +230,9 @@ def configs(quick):
                     P(AB, ("read", 4096), ("seek", sizes[0]), ("read", sizes[1]))]})
     R0, R1, R2 = ("VOL", "PERF0", "FWD"), ("VOL", "PERF0", "REV"), ("VOL", "PERF1", "ELSE")
     CL = R.CLUSTER
+    out.append({"name": "roland:big-blocks", "kind": "roland", "parts": [
+        P(("VOL", "PERF0", "HALFA"), ("seek", 10), ("read", 30000), ("read", 8192)), P(("VOL", "PERF0", "CONT"), ("read", 20000), ("read", 4096)),
+        P(("VOL", "PERF0", "REV"), ("read", 6000), ("read", 4096))]})
     out.append({"name": "roland:2x3+dir", "kind": "roland", "parts": [
         P(R0, ("read", 4096), ("read", CL - 1), ("read", 4096)), P(R1, ("read", 4096), ("read", 4096), ("read", CL + 1)),
         {"path": [], "ops": [["ls", "VOL/PERF1"]], "stepwise": True}]})
@@ -277,9 +286,16 @@ def pristine_isolated(cfg_names, quick):
             return job, None
         return job, r.stdout.strip().splitlines()[-1]
     out = {n: [None] * len(by[n]["parts"]) for n in cfg_names}
+    sims = {}
     with ThreadPoolExecutor(max_workers=min(16, os.cpu_count() or 4)) as ex:
         for (n, i), dig in ex.map(one, jobs):
-            out[n][i] = dig
+            if dig is not None:
+                alone, _, sim = dig.partition(" ")
+                out[n][i] = alone
+                if sim and sim != alone:
+                    sims.setdefault(n, []).append(i)
+    for n, idxs in sims.items():
+        out[n] = {"block_size_dependent": idxs, "digests": out[n]}
     return out
 
 
@@ -288,7 +304,28 @@ def _baseline_main(quick, name, idx):
     cfg = next(c for c in configs(quick) if c["name"] == name)
     parts = cfg["parts"]
     got = run_schedule(cfg["kind"], parts, [idx] * len(parts[idx]["ops"]))[idx]
-    print(hashlib.sha1(got).hexdigest())
+    sim = ""
+    if all(op[0] in ("read", "seek") for op in parts[idx]["ops"]):
+        # "with any block sizes": what the program must see follows from the stream's content as read in plain 4096-byte
+        # blocks from its start (the way the tool itself reads)
+        st = Ctx(cfg["kind"]).stream(tuple(parts[idx]["path"]))
+        st.seek(0, 0)
+        content = b""
+        while True:
+            b = st.read(4096)
+            if not b:
+                break
+            content += b
+        pos, outs = 0, []
+        for op in parts[idx]["ops"]:
+            if op[0] == "seek":
+                pos = min(max(op[1], 0), len(content))
+            else:
+                k = len(content) - pos if (op[1] is None or op[1] < 0) else min(op[1], len(content) - pos)
+                outs.append(content[pos:pos + k])
+                pos += k
+        sim = hashlib.sha1(b"".join(outs)).hexdigest()
+    print(hashlib.sha1(got).hexdigest() + " " + sim)
 
 
 class Check(CheckBase):
@@ -298,11 +335,12 @@ class Check(CheckBase):
     rule = ("per configuration (AKAI raw and inside MODE1/2352: two files of one partition, one fragmented, one file of a "
             "second partition, an L/R pair through the transcoder, a three-sector pair with a contiguous left and a fragmented right half, lazy directory listings; Roland: forward + reverse-mode "
             "sample + listing of another performance, a shared sample with a leading-cluster offset, two samples living in one fragmented chain; CDDA: three tracks): ALL interleavings of the participants' call programs "
-            "(block reads of 1, 2, 4096, sector-1, sector+1 bytes, sector-aligned reads of a contiguous file that end "
+            "(block reads of 1, 2, 4096, sector-1, sector+1 bytes and of 6146..30000 bytes over files of five sectors / four clusters, sector-aligned reads of a contiguous file that end "
             "exactly on a sector boundary, read-to-end requests, absolute seeks, ls of unrealised directories, transcoder "
             "steps) on one fresh image object per schedule; thorough adds 3x3-step programs over all 25 block-size pairs. "
             "Oracle: each participant's observations equal those of the same program run alone on a fresh image IN A NEW PROCESS "
-            "(one pristine subprocess per participant, so that state kept at class / module level cannot leak into a baseline). states = "
+            "(one pristine subprocess per participant, so that state kept at class / module level cannot leak into a baseline), and "
+            "that alone-run itself equals what follows from the stream's content read in plain 4096-byte blocks (any block sizes). states = "
             "schedules, transitions = steps. non-trivial = schedule with >=2 context switches")
     assumptions = ["calls are atomic (the library has no threads): interleaving granularity is one stream/ls/transcoder call"]
 
@@ -326,9 +364,21 @@ class Check(CheckBase):
             if cfg is None:
                 raise core.HarnessError("unknown configuration in replay")
             quick = any(x["name"] == c["config"] for x in configs(True))
-            return self._one(cfg, c["schedule"], rep, pristine_isolated([cfg["name"]], quick)[cfg["name"]])
+            iso = pristine_isolated([cfg["name"]], quick)[cfg["name"]]
+            if isinstance(iso, dict):
+                rep.case(c, ok=False, klass="block-size-dependent", sig=cfg["kind"] + ":block-size-dependent",
+                         detail={"participants": iso["block_size_dependent"]})
+                return
+            return self._one(cfg, c["schedule"], rep, iso)
         cfg = shard["cfg"]
         iso = shard["iso"]
+        if isinstance(iso, dict):
+            for i in iso["block_size_dependent"]:
+                rep.case({"config": cfg["name"], "schedule": [i] * len(cfg["parts"][i]["ops"])}, ok=False, klass="block-size-dependent",
+                         nontrivial=True, sig=cfg["kind"] + ":block-size-dependent",
+                         detail={"participant": i, "path": cfg["parts"][i]["path"], "ops": cfg["parts"][i]["ops"],
+                                 "observed": "read alone, the program does not see the bytes that 4096-byte reads from the start deliver"})
+            return
         if iso is None or any(d is None for d in iso):
             rep.case({"config": cfg["name"], "schedule": None}, ok=False, klass="isolated-run-failed", nontrivial=True,
                      sig=cfg["kind"] + ":isolated-run-failed")
